@@ -220,6 +220,60 @@ def rule_h3(chk: Check, I, ir):
     chk.floor("H3-span", 8)
 
 
+def rule_h5(chk: Check, ir, rule_id: str = "H5-leftrec-order"):
+    """In a left-recursive rule the alternatives that start with the rule itself (directly or through the first item of another
+    rule) come before those that do not.  The seed-growing loop re-parses the rule with ordered choice: a non-recursive
+    alternative that matched as the seed matches again in every round, so a recursive alternative placed after it is never tried
+    (`$(ls)[0]`: the subscript trailer after a subprocess form)."""
+    from ..ir import Ref as _Ref, Look as _Look, Cut as _Cut
+
+    def leftmost(alt):
+        for ni in alt.items:
+            it = ni.item
+            if isinstance(it, (_Look, _Cut)):
+                continue
+            return it
+        return None
+    starts: dict[str, set[str]] = {}
+    for name, r in ir.rules.items():
+        s = set()
+        for a in r.alts:
+            it = leftmost(a)
+            if isinstance(it, _Ref):
+                s.add(it.name)
+        starts[name] = s
+
+    def reaches(src: str, dst: str) -> bool:
+        seen, todo = set(), [src]
+        while todo:
+            x = todo.pop()
+            if x == dst:
+                return True
+            if x in seen:
+                continue
+            seen.add(x)
+            todo += list(starts.get(x, ()))
+        return False
+    n = 0
+    for name, r in ir.rules.items():
+        kinds = []
+        for a in r.alts:
+            it = leftmost(a)
+            kinds.append(isinstance(it, _Ref) and (it.name == name or reaches(it.name, name)))
+        if not any(kinds):
+            continue
+        n += 1
+        chk.count(rule_id)
+        last_rec = max(i for i, k in enumerate(kinds) if k)
+        first_non = min([i for i, k in enumerate(kinds) if not k], default=len(kinds))
+        chk.require(last_rec < first_non, rule_id, name, str(r.pos),
+                    f"`{name}` is left-recursive and its alternative `{r.alts[first_non] if first_non < len(r.alts) else ''}` (which does not "
+                    f"start with `{name}`) stands before the recursive alternative `{r.alts[last_rec]}`: whenever the former matched as the seed "
+                    f"it matches again in each growth round and the latter is never tried")
+    if n < 5:
+        raise AnalysisError(f"H5: only {n} left-recursive rules found")
+
+
 def rule_h4(chk: Check, ir):
     stores = []
     for r, k, a in actions.all_alts(ir.rules):
@@ -233,8 +287,43 @@ def rule_h4(chk: Check, ir):
     helpers = {h for _, h, _ in stores}
     chk.require(helpers == {"expand_env_name", "expand_env_expr"}, "H4-binding-targets", "store-alternatives", repo.PARSER_X,
                 f"$NAME and ${{expr}} must both be offered as binding targets with ctx=Store (found {sorted(stores)})")
-    # and the rule offering them is reachable from star_target-like positions: it must be referenced by a rule used in Assign.targets
     chk.units["store_target_alternatives"] = [k for _, _, k in stores]
+    # placement: the env targets stand beside the plain-name target.  Every rule that offers "just a name" as a binding target by a
+    # pass-through alternative (`| star_atom`) offers `$NAME` and `${expr}` too — itself, or through pass-through alternatives —
+    # so that every position that reaches the name atom (bare, starred, parenthesised, in a tuple or list) reaches the env forms
+    from ..ir import Ref as _Ref, Tok as _Tok
+    name_rules = set()
+    for r, k, a in actions.all_alts(ir.rules):
+        if a.action is not None and len(a.items) == 1 and isinstance(a.items[0].item, _Tok) and a.items[0].item.name == "NAME" and any(
+                isinstance(n, ast.Call) and norm_stmt(n.func) == "ast.Name" and any(kw.arg == "ctx" and norm_stmt(kw.value) == "Store" for kw in n.keywords)
+                for n in ast.walk(a.action)):
+            name_rules.add(r.name)
+
+    def unit_closure(rule: str, seen: set) -> set:
+        out = set()
+        if rule in seen or rule not in ir.rules:
+            return out
+        seen.add(rule)
+        for a in ir.rules[rule].alts:
+            if a.action is not None:
+                for n in ast.walk(a.action):
+                    if isinstance(n, ast.Call) and isinstance(n.func, ast.Attribute) and n.func.attr in ("expand_env_name", "expand_env_expr") \
+                            and any(kw.arg == "ctx" and norm_stmt(kw.value) == "Store" for kw in n.keywords):
+                        out.add(n.func.attr)
+            if len(a.items) == 1 and isinstance(a.items[0].item, _Ref) and a.items[0].item.name not in name_rules:
+                out |= unit_closure(a.items[0].item.name, seen)
+        return out
+    hosts = [(name, a.items[0].item.name) for name, r in ir.rules.items() for a in r.alts
+             if len(a.items) == 1 and isinstance(a.items[0].item, _Ref) and a.items[0].item.name in name_rules]
+    chk.count("H4-binding-targets")
+    if not hosts:
+        chk.fail("H4-binding-targets", "placement", repo.PARSER_X, "no rule passes the plain-name binding target through: the anchor of the env targets is gone")
+    for host, nr in hosts:
+        chk.count("H4-binding-targets")
+        have = unit_closure(host, set()) | unit_closure(nr, set())
+        chk.require(have == {"expand_env_name", "expand_env_expr"}, "H4-binding-targets", f"placement:{host}", str(ir.rules[host].pos),
+                    f"`{host}` passes the plain-name target `{nr}` through but offers {sorted(have) or 'no'} env target beside it: positions "
+                    f"that reach the name atom through `{host}` (e.g. a parenthesised target `($X) = 1`, `for ($X) in y`) lose `$NAME`/`${{...}}`")
     # sibling agreement: the Load form and the Store form of one construct consume the same items (`${` KEY `}` must parse KEY
     # with the same rule in both, else `${a, b}` or `${k := 'X'}` is a target but not a value)
     forms: dict[str, dict[str, set]] = {}
@@ -283,6 +372,9 @@ def run(chk: Check):
     c06.rule_p3(chk, ix, ir)
     c06.rule_p4(chk, ix, tr.interp)
     c06.rule_p5(chk, ix)
+    rule_h5(chk, ir)
+    from .c10 import rule_f3
+    rule_f3(chk, ix)  # the subprocess openers `!(` `![` `$(` … stay single operator tokens in every scanner mode
     macros.rule_n2(chk, ix, ir)
     c09.rule_k6(chk, constfold.fold_tokenize(), ix, False)
     from .c01 import rule_lookahead_cover
